@@ -22,7 +22,7 @@ DATES = [datetime.datetime(2020, 1, 1, tzinfo=UTC), datetime.datetime(2021, 2, 2
 
 
 def mk_request(kind, rng, i):
-    acct = rng.choice(["123", "A&B<9>", "0001-2", "x" * 22])
+    acct = rng.choice(["123", "A&B<9>", "0001-2", "x" * 22, "y" * 30 + "-1", "y" * 30 + "-2"])      # longer than the 22 characters OFX allows: warned about, sent whole
     ds, de = rng.choice(DATES), rng.choice(DATES)
     if kind == "stmt":
         return StmtRq(acctid=acct, accttype=rng.choice(["CHECKING", "SAVINGS", "MONEYMRKT", "CREDITLINE"]), dtstart=ds, dtend=de, inctran=rng.choice([True, False]))
